@@ -124,10 +124,11 @@ def gen_case(rng, audios, k=8):
 def case_cmds(case, audios, bp=1):
     cmds = ["newdec " + " ".join(case["cfg"]), "jsgf " + case["grammar"].encode().hex(), "audio " + audios[case["audio"]], "start"]
     pos = 0
+    ops = " " + case["ops"] if case.get("ops") else ""
     for i, m in enumerate(case["mids"]):
-        cmds += [f"proc {m - pos}", f"lat mid{i} {case['k']} {bp}"]
+        cmds += [f"proc {m - pos}", f"lat mid{i} {min(case['k'], 200)} {bp}{ops}"]
         pos = m
-    cmds += [f"proc {case['cut'] - pos}", "end", f"lat end {case['k']} {bp}"]
+    cmds += [f"proc {case['cut'] - pos}", "end", f"lat end {case['k']} {bp}{ops}"]
     return cmds
 
 
@@ -212,6 +213,12 @@ def parse(out):
             cur["PH"] = unhx(w[1])
         elif w[0] == "S":
             cur["same_after"] = int(w[1].split("=")[1])
+        elif w[0] == "HO":
+            cur.setdefault("hist_ops", []).append(dict(step=int(w[1]), op=w[2]))
+        elif w[0] in ("HB", "HP", "HT"):
+            cur["hist_ops"][-1].update(kv(w[2:]))
+        elif w[0] in ("HS", "HV", "HA", "HE", "HN"):
+            cur["hist_ops"][-1][w[0]] = [int(t) for t in w[2:]]
     return res
 
 
@@ -348,7 +355,8 @@ def run_case(binp, case, audios, timeout=600):
 def run_driver(lats, k, with_build=True):
     text, tabs = [], []
     for d in lats:
-        lines, tab = driver_block(d, k, with_build)
+        kk = k if d["tag"] == "end" else min(k, 200)
+        lines, tab = driver_block(d, kk, with_build)
         text += lines
         tabs.append(tab)
     rc, out, err = vlib.run_driver("c11", "\n".join(text) + "\n", timeout=900)
